@@ -43,6 +43,7 @@ fn main() {
     }
     let code = match cmd.as_str() {
         "hist" => scen::hist::main(&args),
+        "grammar" => scen::grammar::main(&args),
         _ => {
             eprintln!("usage: tcs-harness <hist|…> --out FILE [--seed N] …");
             2
